@@ -2,6 +2,7 @@
 import json
 import os
 import re
+import shutil
 import time
 
 import build
@@ -53,6 +54,8 @@ def run_group(pid, tier, crate, feat, obls, jobs):
                "--output-into-files", "--export-json", jpath, "--harness-timeout", "%ds" % tmo]
         if features is not None:
             cmd += ["--no-default-features", "--features", features]
+        if all(o["kani_flags"] for o in obls):
+            cmd += [x for x in obls[0]["kani_flags"] if x not in ("-Z", "unstable-options")]
         for h in names:
             cmd += ["--harness", "verif_harness::" + h]
         cmd = ["bash", "-c", "ulimit -v %d; exec \"$@\"" % (28 * 1024 * 1024), "--"] + cmd
@@ -100,14 +103,35 @@ def run_group(pid, tier, crate, feat, obls, jobs):
                               "tail": body[-2500:] if body else out[-2500:],
                               "cbmc_stats": jstats.get(o["name"], {}),
                               "stubs": re.findall(r"- Stub: (.*)", body)}
-        # counterexamples for failed harnesses
+        # counterexamples for failed harnesses (one parallel concrete-playback run)
+        need_pb = []
         for o in obls:
             r = res[o["name"]]
             failed = [c for c in r["checks"] if c["status"] == "FAILURE"]
             if failed and any(classify(c)[0] in ("tagged", "default") for c in failed):
-                vals, pout = common.run_kani_playback(sc, crate, o["name"], timeout=o["timeout"] + 300,
-                                                      features=features)
-                r["playback"] = vals
+                need_pb.append(o)
+        if need_pb:
+            shutil.rmtree(outdir, ignore_errors=True)
+            cmd = ["cargo", "kani", "-p", crate, "-Z", "function-contracts", "-Z", "stubbing",
+                   "-Z", "unstable-options", "-Z", "concrete-playback", "--concrete-playback=print",
+                   "-j", str(jobs), "--exact", "--output-format", "terse", "--output-into-files",
+                   "--harness-timeout", "%ds" % (tmo + 300)]
+            if features is not None:
+                cmd += ["--no-default-features", "--features", features]
+            if all(o["kani_flags"] for o in obls):
+                cmd += [x for x in obls[0]["kani_flags"] if x not in ("-Z", "unstable-options")]
+            for o in need_pb:
+                cmd += ["--harness", "verif_harness::" + o["name"]]
+            cmd = ["bash", "-c", "ulimit -v %d; exec \"$@\"" % (28 * 1024 * 1024), "--"] + cmd
+            rc2, out2, dt2 = common.sh(cmd, cwd=sc.dir, env={"CARGO_TARGET_DIR": sc.target},
+                                       timeout=(tmo + 300) * (1 + len(need_pb) // max(jobs, 1)) + 600)
+            for o in need_pb:
+                fn = os.path.join(outdir, "verif_harness::" + o["name"])
+                body = ""
+                if os.path.exists(fn):
+                    with open(fn, errors="replace") as f:
+                        body = f.read()
+                res[o["name"]]["playback"] = common.extract_playback(body)
         return res, dt, out
     finally:
         sc.cleanup()
@@ -150,10 +174,10 @@ def check_property(pid, tier):
     for o in obls:
         for f in feats:
             if f in o["features"]:
-                groups.setdefault((o["crate"], f), []).append(o)
+                groups.setdefault((o["crate"], f, tuple(o["kani_flags"])), []).append(o)
     results = {}  # (name, feat) -> result
     solver_time = 0.0
-    for (crate, feat), gl in sorted(groups.items()):
+    for (crate, feat, _flags), gl in sorted(groups.items()):
         log("[%s] kani: crate=%s features=%s harnesses=%d" % (pid, crate, feat, len(gl)))
         res, dt, out = run_group(pid, tier, crate, feat, gl, jobs)
         for n, r in res.items():
